@@ -453,6 +453,11 @@ def fd_life_cases(ctx, pexpect, n):
             def sendall(self_, b):
                 if not st['open']:
                     raise OSError(9, 'Bad file descriptor')
+
+            def send(self_, b):
+                if not st['open']:
+                    raise OSError(9, 'Bad file descriptor')
+                return len(b)
         os.close, os.fstat, os.write = oclose, ofstat, owrite
         obs = []
         try:
